@@ -2,6 +2,7 @@ import LolHtml.Model.NameHash
 import LolHtml.Model.TagCfg
 import LolHtml.Model.TreeSim
 import LolHtml.Gen.Tags
+import LolHtml.Ref.Tags
 import LolHtml.Lemmas.NameHash
 import LolHtml.Lemmas.Guard
 /-!
@@ -14,6 +15,33 @@ specifications in `LolHtml/Spec/{Guard,Island}.lean`, the reviewed reference tab
 namespace LolHtml.Thm.C03
 open LolHtml LolHtml.Model
 open LolHtml.Lemmas.NameHash (validCh)
+
+/-! ## 1. Tag tables -/
+
+deriving instance DecidableEq for LolHtml.Model.TagCfg
+
+/-- The tag table and every tag list translated from the Rust sources equal the reviewed reference
+(`Ref/Tags.lean`, whose hashes are *computed* from the names by the model hash). -/
+theorem C03_tags_match_reference :
+    Gen.Tags.cfg = Ref.Tags.cfg ∧ Gen.Tags.tags = Ref.Tags.tags := by
+  decide +kernel
+
+/-- The guard's list of text-mode-switching tags is exactly the set of tags for which
+`get_text_type_adjustment` switches the text type: no text-mode-switching tag escapes the guard. -/
+theorem C03_guard_list_complete (t : Nat) :
+    t ∈ Gen.Tags.cfg.guardTextSwitch ↔ textTypeAdjustment Gen.Tags.cfg t ≠ .none := by
+  have hl : Gen.Tags.cfg.guardTextSwitch =
+      Gen.Tags.cfg.rcdata ++ [Gen.Tags.cfg.plaintext, Gen.Tags.cfg.script] ++ Gen.Tags.cfg.rawtext := by
+    decide +kernel
+  rw [hl]
+  unfold textTypeAdjustment
+  by_cases h1 : t ∈ Gen.Tags.cfg.rcdata
+  · simp [h1]
+  by_cases h2 : t = Gen.Tags.cfg.plaintext
+  · subst h2; simp [h1]
+  by_cases h3 : t = Gen.Tags.cfg.script
+  · subst h3; simp [h1, h2]
+  by_cases h4 : t ∈ Gen.Tags.cfg.rawtext <;> simp [h1, h2, h3, h4]
 
 /-! ## 2. Name hashes -/
 
